@@ -47,7 +47,7 @@ _ALLNL = ["z0_0", "z0_1", "c0", "c1", "c2", "c3", "c4"]
 NLFREE = {"ExplicitEuler": _ALLNL, "SemiExplicitEuler": _ALLNL, "SemiExplicitEuler2": _ALLNL, "RungeKutta2": _ALLNL, "RungeKutta3": ["z0_0", "z0_1"]}
 
 
-def instances(tier, seed):
+def _instances(tier, seed):
     out = []
     thorough = tier == "thorough"
     for ig in INTEGS:
@@ -86,6 +86,15 @@ def instances(tier, seed):
                 continue
             out.append(dict(name="ctrl/%s/lin/%s" % (ig, cn), args=["ctrl", ig, "lin"], paths=1, base_points=1, seedcase=sd, max_terms=20000,
                             pc_max_terms=60))
+    return out
+
+
+def instances(tier, seed):
+    out = _instances(tier, seed)
+    for i in out:
+        # wall-clock bounds: a twin (satisfiable by design) that nlsat cannot settle quickly is simply not counted as refuted
+        i.setdefault("twin_timeout_ms", 15000)
+        i.setdefault("z3_timeout_ms", 120000)
     return out
 
 
